@@ -193,7 +193,7 @@ BAD = ["shift-half", "shift-quarter", "shift-above-tol", "oversized", "fractiona
 
 
 def gen_setter(rng, exact, scale=None):
-    st = gen_state(rng, exact, scale=scale)
+    st = gen_state(rng, exact, scale=scale, nsubs=0 if (scale or 0) >= 1e3 else None)
     k = rng.choice([1, 1, 2, 3])
     classes = [rng.choice(GOOD) for _ in range(k)]
     if rng.random() < 0.6:
@@ -574,7 +574,9 @@ def run_case(c):
         c1 = cellq(st)
         c2 = [(h - l) / k for l, h, k in zip(lo2, hi2, c["n2"])]
         cells_equal = all(abs(x - y) <= abs(y) / 10 ** 9 for x, y in zip(c1, c2))
-        cells_differ = any(abs(x - y) > abs(y) / 10 for x, y in zip(c1, c2))
+        # (with an explicitly passed tolerance, differences below 2*tolerance are the caller's choice)
+        cells_differ = any(abs(x - y) > abs(y) / 10 and (tol == ALIGN_TOL or abs(x - y) > 2 * tol + abs(y) / 1000)
+                           for x, y in zip(c1, c2))
         dmin = [lattice_dist(abs(a - b), cc) for a, b, cc in zip(lo, lo2, c1)]
         dmax = [lattice_dist(abs(a - b), cc) for a, b, cc in zip(hi, hi2, c1)]
         noise = max(abs(x) for x in lo + hi + lo2 + hi2) * F(1, 2 ** 49)
@@ -621,7 +623,13 @@ def run_case(c):
             after = snap_subs(mesh) if st_ == "ok" else []
             mobs = snap_mesh(mesh) if st_ == "ok" else None
         else:
-            mesh = build(st)
+            st0, mesh = attempt(lambda: build(st))
+            if st0 != "ok":
+                # previous subregions refused: only possible when rounding reaches the absolute 1e-12 test
+                if exact or noise_small(st):
+                    rec["oracle"].append("valid-subregions-rejected")
+                rec.update(obs=dict(err=mesh), key=key_of(kind, "state-rejected"), size=size)
+                return rec
             before = snap_subs(mesh)
             st_, _ = attempt(lambda: setattr(mesh, "subregions", cand_dict))
             after = snap_subs(mesh)
@@ -657,7 +665,8 @@ def run_case(c):
     # ---- cases that start from an accepted state ----
     st0, mesh = attempt(lambda: build(st))
     if st0 != "ok":
-        rec["oracle"].append("valid-subregions-rejected")
+        if exact or noise_small(st):
+            rec["oracle"].append("valid-subregions-rejected")
         rec.update(obs=dict(err=mesh), key=key_of(kind, "state-rejected"), size=size)
         return rec
     held = snap_subs(mesh)
@@ -864,7 +873,8 @@ def run_case(c):
         dst = c["dst"]
         st1, mesh2 = attempt(lambda: build(dst))
         if st1 != "ok":
-            rec["oracle"].append("valid-subregions-rejected")
+            if exact or noise_small(dst):
+                rec["oracle"].append("valid-subregions-rejected")
             rec.update(obs=dict(err=mesh2), key=key_of(kind, "state-rejected"), size=size)
             return rec
         before = snap_subs(mesh2)
